@@ -65,11 +65,13 @@ static const double UNITBOX[9] = {1, 0, 0, 0, 1, 0, 0, 0, 1};
 // then read back into a topology with nread beads.  Outputs of the LAST frame read; returns the number of frames read, -1 if
 // the reader threw, -2 if the writer threw.
 H long h_traj_rt(long format, long n, const double* pos, const double* vel, const double* frc, const double* box, long flags, long step, long nframes,
-                 long nread, double* opos, double* ovel, double* ofrc, double* obox, long* ometa) {
+                 long nread, long flags2, double* opos, double* ovel, double* ofrc, double* obox, long* ometa) {
   try {
-    Topology a; fill(a, n, pos, vel, frc, box, flags, step);
-    if (format == 0) { GROWriter w; w.Open("t.gro", false); for (long f = 0; f < nframes; f++) { a.setStep(step + f); w.Write(&a); } w.Close(); }
-    else { LAMMPSDumpWriter w; w.Open("t.dump", false); for (long f = 0; f < nframes; f++) { a.setStep(step + f); w.Write(&a); } w.Close(); }
+    // frames after the first are written with the presence flags flags2 (a trajectory whose column layout changes)
+    Topology a; fill(a, n, pos, vel, frc, box, flags | flags2, step);
+    auto layout = [&](long fl) { a.SetHasVel((fl & 2) != 0); a.SetHasForce((fl & 4) != 0); };
+    if (format == 0) { GROWriter w; w.Open("t.gro", false); for (long f = 0; f < nframes; f++) { a.setStep(step + f); layout(f == 0 ? flags : flags2); w.Write(&a); } w.Close(); }
+    else { LAMMPSDumpWriter w; w.Open("t.dump", false); for (long f = 0; f < nframes; f++) { a.setStep(step + f); layout(f == 0 ? flags : flags2); w.Write(&a); } w.Close(); }
   } catch (...) { return -2; }
   try {
     Topology b; fill(b, nread, ZERO, ZERO, ZERO, UNITBOX, 0, -7);
@@ -93,17 +95,17 @@ H long h_traj_rt(long format, long n, const double* pos, const double* vel, cons
 #include <cstdio>
 #include <cstring>
 #include <unistd.h>
-// usage: prog format n flags step nframes nread  then 9 box values, then n*3 pos, n*3 vel, n*3 frc
+// usage: prog format n flags step nframes nread flags2  then 9 box values, then n*3 pos, n*3 vel, n*3 frc
 int main(int argc, char** argv) {
   char tmpl[] = "/tmp/verif-c08t-XXXXXX"; if (!mkdtemp(tmpl) || chdir(tmpl)) return 3;
-  int a = 1; long format = atol(argv[a++]), n = atol(argv[a++]), flags = atol(argv[a++]), step = atol(argv[a++]), nframes = atol(argv[a++]), nread = atol(argv[a++]);
+  int a = 1; long format = atol(argv[a++]), n = atol(argv[a++]), flags = atol(argv[a++]), step = atol(argv[a++]), nframes = atol(argv[a++]), nread = atol(argv[a++]), flags2 = atol(argv[a++]);
   double box[9], pos[48], vel[48], frc[48];
   for (int i = 0; i < 9; i++) box[i] = atof(argv[a++]);
   for (long i = 0; i < 3 * n; i++) pos[i] = atof(argv[a++]);
   for (long i = 0; i < 3 * n; i++) vel[i] = atof(argv[a++]);
   for (long i = 0; i < 3 * n; i++) frc[i] = atof(argv[a++]);
   double op[48] = {0}, ov[48] = {0}, of[48] = {0}, ob[9] = {0}; long om[20] = {0};
-  long k = h_traj_rt(format, n, pos, vel, frc, box, flags, step, nframes, nread, op, ov, of, ob, om);
+  long k = h_traj_rt(format, n, pos, vel, frc, box, flags, step, nframes, nread, flags2, op, ov, of, ob, om);
   printf("RESULT %ld %ld %ld", k, om[0], om[1]);
   for (int i = 0; i < 9; i++) printf(" %.10g", ob[i]);
   for (long i = 0; i < 3 * nread; i++) printf(" %.10g", op[i]);
